@@ -4,5 +4,6 @@ CONSTANTS
   MaxName = 255
   MaxEntries = 8
 INVARIANT RefRoundTrip
+INVARIANT HistoryConsistent
 INVARIANT Emit
 CHECK_DEADLOCK FALSE
